@@ -33,9 +33,10 @@ VARIABLES prog,       \* prog[p]: calls still to make
           peer,       \* items the peer will still send (script)
           avail,      \* how many of them have been delivered to the transport already
           failArmed,  \* the transport will fail the write of the closing tag (once)
+          dl,         \* the close deadline has passed (SetCloseDeadline)
           sv          \* serve process state: [phase, reason, pending]
 
-vars == <<prog, cur, lock, outClosed, inClosed, wire, rets, peer, avail, failArmed, sv>>
+vars == <<prog, cur, lock, outClosed, inClosed, wire, rets, peer, avail, failArmed, dl, sv>>
 
 NoCall == [k |-> "none", st |-> "none", wrote |-> 0]
 Items == {"stanza", "stanza_reply", "stanza_herr", "close", "streamerr", "eof"}
@@ -46,7 +47,7 @@ Init ==
   /\ cur = [p \in Procs |-> NoCall]
   /\ lock = "free" /\ outClosed = FALSE /\ inClosed = FALSE
   /\ wire = <<>> /\ rets = [p \in Procs |-> <<>>]
-  /\ peer \in PeerScripts /\ avail = 0 /\ failArmed \in BOOLEAN
+  /\ peer \in PeerScripts /\ avail = 0 /\ failArmed \in BOOLEAN /\ dl = FALSE
   /\ sv = [phase |-> "idle", reason |-> "none", owner |-> "none", pending |-> 0]
 
 -----------------------------------------------------------------------------
@@ -59,7 +60,7 @@ Begin(p) ==       \* the next call of p's program starts (before taking any lock
   /\ IF sv.owner = p /\ sv.phase \in {"reading", "closing"}
      THEN sv.pending > 0 /\ sv' = [sv EXCEPT !.pending = @ - 1]   \* only calls Serve itself issued
      ELSE UNCHANGED sv
-  /\ UNCHANGED <<lock, outClosed, inClosed, wire, rets, peer, avail, failArmed>>
+  /\ UNCHANGED <<lock, outClosed, inClosed, wire, rets, peer, avail, failArmed, dl>>
 
 NeedsOutLock(k) == k \in {"tx", "close", "senderr"}
 
@@ -67,7 +68,7 @@ Acquire(p) ==
   /\ cur[p].st = "entered" /\ NeedsOutLock(cur[p].k) /\ lock = "free"
   /\ lock' = p
   /\ cur' = [cur EXCEPT ![p].st = "holding"]
-  /\ UNCHANGED <<prog, outClosed, inClosed, wire, rets, peer, avail, failArmed, sv>>
+  /\ UNCHANGED <<prog, outClosed, inClosed, wire, rets, peer, avail, failArmed, dl, sv>>
 
 (* The body of the call is over: the lock (if held) is released here.  The caller   *)
 (* observes the return later (Ret): between the two other goroutines may run.       *)
@@ -80,7 +81,7 @@ Ret(p) ==
   /\ cur[p].st = "returning"
   /\ rets' = [rets EXCEPT ![p] = Append(@, [k |-> cur[p].k, class |-> cur[p].class])]
   /\ cur' = [cur EXCEPT ![p] = NoCall]
-  /\ UNCHANGED <<prog, lock, outClosed, inClosed, wire, peer, avail, failArmed, sv>>
+  /\ UNCHANGED <<prog, lock, outClosed, inClosed, wire, peer, avail, failArmed, dl, sv>>
 
 (* Transmit: refused once the output stream is closed (C10), otherwise writes its    *)
 (* element in one or more chunks while holding the lock (C05).                       *)
@@ -88,7 +89,7 @@ TxRefuse(p) ==
   /\ cur[p].k = "tx" /\ cur[p].st = "holding" /\ outClosed /\ cur[p].wrote = 0
   /\ "WriteAfterClose" \notin Dev
   /\ Return(p, "closed")
-  /\ UNCHANGED <<prog, outClosed, inClosed, wire, peer, avail, failArmed, sv>>
+  /\ UNCHANGED <<prog, outClosed, inClosed, wire, peer, avail, failArmed, dl, sv>>
 
 TxWrite(p) ==
   /\ cur[p].k = "tx" /\ cur[p].st = "holding"
@@ -96,12 +97,12 @@ TxWrite(p) ==
   /\ cur[p].wrote < MaxChunks
   /\ wire' = Append(wire, [p |-> p, what |-> "elem", c |-> Len(rets[p])])
   /\ cur' = [cur EXCEPT ![p].wrote = @ + 1]
-  /\ UNCHANGED <<prog, lock, outClosed, inClosed, rets, peer, avail, failArmed, sv>>
+  /\ UNCHANGED <<prog, lock, outClosed, inClosed, rets, peer, avail, failArmed, dl, sv>>
 
 TxDone(p) ==
   /\ cur[p].k = "tx" /\ cur[p].st = "holding" /\ cur[p].wrote >= 1
   /\ Return(p, "nil")
-  /\ UNCHANGED <<prog, outClosed, inClosed, wire, peer, avail, failArmed, sv>>
+  /\ UNCHANGED <<prog, outClosed, inClosed, wire, peer, avail, failArmed, dl, sv>>
 
 (* Close: writes the closing tag exactly once, whoever gets there first.             *)
 CloseWrite(p) ==
@@ -110,7 +111,7 @@ CloseWrite(p) ==
   \*  closing tag - the pinned tests even expect that it does not; if written it goes first)
   /\ outClosed' = TRUE
   /\ wire' = Append(wire, [p |-> p, what |-> "close", c |-> Len(rets[p])])
-  /\ UNCHANGED <<prog, cur, lock, inClosed, rets, peer, avail, failArmed, sv>>
+  /\ UNCHANGED <<prog, cur, lock, inClosed, rets, peer, avail, failArmed, dl, sv>>
 
 (* The transport fails the write of the closing tag: the stream is closed all the same -  *)
 (* a later Close must not write the tag again and transmit calls are refused - and the     *)
@@ -119,30 +120,30 @@ CloseWriteFail(p) ==
   /\ cur[p].k \in {"close", "senderr"} /\ cur[p].st = "holding" /\ ~outClosed /\ failArmed
   /\ outClosed' = TRUE /\ failArmed' = FALSE
   /\ Return(p, "other")
-  /\ UNCHANGED <<prog, inClosed, wire, peer, avail, sv>>
+  /\ UNCHANGED <<prog, inClosed, wire, peer, avail, dl, sv>>
 
 ErrWrite(p) ==
   /\ cur[p].k = "senderr" /\ cur[p].st = "holding" /\ ~outClosed /\ cur[p].wrote = 0
   /\ wire' = Append(wire, [p |-> p, what |-> "err", c |-> Len(rets[p])])
   /\ cur' = [cur EXCEPT ![p].wrote = 1]
-  /\ UNCHANGED <<prog, lock, outClosed, inClosed, rets, peer, avail, failArmed, sv>>
+  /\ UNCHANGED <<prog, lock, outClosed, inClosed, rets, peer, avail, failArmed, dl, sv>>
 
 CloseDone(p) ==
   /\ cur[p].k \in {"close", "senderr"} /\ cur[p].st = "holding" /\ outClosed
   /\ Return(p, "nil")
-  /\ UNCHANGED <<prog, outClosed, inClosed, wire, peer, avail, failArmed, sv>>
+  /\ UNCHANGED <<prog, outClosed, inClosed, wire, peer, avail, failArmed, dl, sv>>
 
 (* Input side *)
 CloseInput(p) ==
   /\ cur[p].k = "closeinput" /\ cur[p].st = "entered"
   /\ inClosed' = TRUE
   /\ Return(p, "nil")
-  /\ UNCHANGED <<prog, outClosed, wire, peer, avail, failArmed, sv>>
+  /\ UNCHANGED <<prog, outClosed, wire, peer, avail, failArmed, dl, sv>>
 
 Rx(p) ==          \* a read attempt after Serve is over
   /\ cur[p].k = "rx" /\ cur[p].st = "entered"
   /\ Return(p, IF inClosed THEN "inclosed" ELSE "other")
-  /\ UNCHANGED <<prog, outClosed, inClosed, wire, peer, avail, failArmed, sv>>
+  /\ UNCHANGED <<prog, outClosed, inClosed, wire, peer, avail, failArmed, dl, sv>>
 
 -----------------------------------------------------------------------------
 (* Serve: one item of peer input at a time.  The serve call stays current while the *)
@@ -152,11 +153,11 @@ ServeStart(p) ==
   /\ cur[p].k = "serve" /\ cur[p].st = "entered" /\ sv.phase = "idle"
   /\ sv' = [sv EXCEPT !.phase = "reading", !.owner = p]
   /\ cur' = [cur EXCEPT ![p] = NoCall]           \* sub-calls follow; ServeRet ends it
-  /\ UNCHANGED <<prog, lock, outClosed, inClosed, wire, rets, peer, avail, failArmed>>
+  /\ UNCHANGED <<prog, lock, outClosed, inClosed, wire, rets, peer, avail, failArmed, dl>>
 
 PeerFeed ==
   /\ avail < Len(peer) /\ avail' = avail + 1
-  /\ UNCHANGED <<prog, cur, lock, outClosed, inClosed, wire, rets, peer, failArmed, sv>>
+  /\ UNCHANGED <<prog, cur, lock, outClosed, inClosed, wire, rets, peer, failArmed, dl, sv>>
 
 ServeItem(p) ==
   /\ sv.phase = "reading" /\ sv.owner = p /\ sv.pending = 0 /\ cur[p] = NoCall /\ avail > 0
@@ -178,16 +179,30 @@ ServeItem(p) ==
                   /\ sv' = [sv EXCEPT !.phase = "closing", !.reason = "eof", !.pending = 2]
                \/ /\ prog' = [prog EXCEPT ![p] = <<"senderr", "closeinput", "close">> \o @]
                   /\ sv' = [sv EXCEPT !.phase = "closing", !.reason = "eof", !.pending = 3]
-  /\ UNCHANGED <<cur, lock, outClosed, inClosed, wire, rets, failArmed>>
+  /\ UNCHANGED <<cur, lock, outClosed, inClosed, wire, rets, failArmed, dl>>
 
 (* A reply the handler could not write because the output stream was closed locally  *)
 (* ends Serve with that error (the property does not say Serve must go on).          *)
+(* The close deadline passes (an asynchronous event: it overtakes input that was not read  *)
+(* yet): Serve ends with an error, by either shutdown path.                                *)
+Deadline ==
+  /\ ~dl /\ dl' = TRUE
+  /\ UNCHANGED <<prog, cur, lock, outClosed, inClosed, wire, rets, peer, avail, failArmed, sv>>
+
+ServeDeadline(p) ==
+  /\ sv.phase = "reading" /\ sv.owner = p /\ sv.pending = 0 /\ cur[p] = NoCall /\ dl
+  /\ \/ /\ prog' = [prog EXCEPT ![p] = <<"closeinput", "close">> \o @]
+        /\ sv' = [sv EXCEPT !.phase = "closing", !.reason = "deadline", !.pending = 2]
+     \/ /\ prog' = [prog EXCEPT ![p] = <<"senderr", "closeinput", "close">> \o @]
+        /\ sv' = [sv EXCEPT !.phase = "closing", !.reason = "deadline", !.pending = 3]
+  /\ UNCHANGED <<cur, lock, outClosed, inClosed, wire, rets, peer, avail, failArmed, dl>>
+
 ServeAbort(p) ==
   /\ sv.phase = "reading" /\ sv.owner = p /\ sv.pending = 0 /\ cur[p] = NoCall
   /\ rets[p] # <<>> /\ rets[p][Len(rets[p])] = [k |-> "tx", class |-> "closed"]
   /\ prog' = [prog EXCEPT ![p] = <<"senderr", "closeinput", "close">> \o @]
   /\ sv' = [sv EXCEPT !.phase = "closing", !.reason = "refused", !.pending = 3]
-  /\ UNCHANGED <<cur, lock, outClosed, inClosed, wire, rets, peer, avail, failArmed>>
+  /\ UNCHANGED <<cur, lock, outClosed, inClosed, wire, rets, peer, avail, failArmed, dl>>
 
 (* Serve returns once its shutdown calls are done: nil after the peer's close, the   *)
 (* error otherwise; both directions are closed.                                      *)
@@ -202,15 +217,15 @@ ServeRet(p, class) ==
        [] OTHER -> class = "other"
   /\ sv' = [sv EXCEPT !.phase = "done"]
   /\ rets' = [rets EXCEPT ![p] = Append(@, [k |-> "serve", class |-> class])]
-  /\ UNCHANGED <<prog, cur, lock, outClosed, inClosed, wire, peer, avail, failArmed>>
+  /\ UNCHANGED <<prog, cur, lock, outClosed, inClosed, wire, peer, avail, failArmed, dl>>
 
 -----------------------------------------------------------------------------
 Next ==
-  \/ PeerFeed
+  \/ PeerFeed \/ Deadline
   \/ \E p \in Procs :
       \/ Begin(p) \/ Ret(p) \/ Acquire(p) \/ TxRefuse(p) \/ TxWrite(p) \/ TxDone(p)
       \/ CloseWrite(p) \/ CloseWriteFail(p) \/ ErrWrite(p) \/ CloseDone(p) \/ CloseInput(p) \/ Rx(p)
-      \/ ServeStart(p) \/ ServeItem(p) \/ ServeAbort(p)
+      \/ ServeStart(p) \/ ServeItem(p) \/ ServeAbort(p) \/ ServeDeadline(p)
       \/ \E c \in {"nil", "streamerr", "other", "closed"} : ServeRet(p, c)
 
 Spec == Init /\ [][Next]_vars
@@ -252,5 +267,5 @@ C05_NoStrayWrites ==
 (* liveness (FairSpec, no deviations): every program finishes, Serve returns *)
 Terminates == <>(\A p \in Procs : prog[p] = <<>> /\ cur[p] = NoCall)
 
-View == <<prog, cur, lock, outClosed, inClosed, wire, rets, peer, avail, failArmed, sv>>
+View == <<prog, cur, lock, outClosed, inClosed, wire, rets, peer, avail, failArmed, dl, sv>>
 =============================================================================
